@@ -20,6 +20,7 @@ def N(name, bound, tier="thorough", timeout=1500, **kw):
 
 
 PROP = {
+    "level_text": "Sequential behaviour only, within the stated bounds: scoped map vs stack of snapshots for every history, KMP matcher vs the naive definition, interner under colliding hashers. 'From any number of threads' is NOT decided (Kani does not model threads).",
     "title": "Core containers and identifiers meet their sequential specs",
     "explanation": (
         "The scoped map is driven through a fully symbolic history (operation kind, key, value and scope of every step "
